@@ -1,0 +1,37 @@
+// Copyright © 2024 Attestant Limited.
+// Licensed under the Apache License, Version 2.0 (the "License");
+// you may not use this file except in compliance with the License.
+// You may obtain a copy of the License at
+//
+//     http://www.apache.org/licenses/LICENSE-2.0
+//
+// Unless required by applicable law or agreed to in writing, software
+// distributed under the License is distributed on an "AS IS" BASIS,
+// WITHOUT WARRANTIES OR CONDITIONS OF ANY KIND, either express or implied.
+// See the License for the specific language governing permissions and
+// limitations under the License.
+
+//go:build verif
+
+package standard
+
+import (
+	"reflect"
+
+	badger "github.com/dgraph-io/badger/v2"
+)
+
+// VerifStore returns the store behind the rules service, for simulation harnesses.
+func (s *Service) VerifStore() *Store {
+	return s.store
+}
+
+// VerifDB returns the open badger database, for simulation harnesses.
+func (s *Store) VerifDB() *badger.DB {
+	return s.db
+}
+
+// VerifSyncWrites reports the SyncWrites option the open badger database is actually running with.
+func (s *Store) VerifSyncWrites() bool {
+	return reflect.ValueOf(s.db).Elem().FieldByName("opt").FieldByName("SyncWrites").Bool()
+}
